@@ -635,18 +635,19 @@ theorem colexSucc_asc (c : List Nat) (hasc : Asc c) :
 theorem two63 : (2 : Int) ^ 63 = 9223372036854775808 := by norm_num
 theorem two63n : (2 : Nat) ^ 63 = 9223372036854775808 := by norm_num
 
+
 /-! ## `Coeffs` -/
 
-/-- entry `j` of row `i`, as an `int` -/
-def pascalEntry (i j : Nat) : Int := wrapInt ((Nat.choose i j : Nat) : Int)
-
-/-- row `i` of `Coeffs`: entries `0 .. i/2` -/
-def rowSpec (i : Nat) : Array Int := ((List.range (i / 2 + 1)).map (pascalEntry i)).toArray
+/-- row `i` of Pascal's triangle, entries `0 .. i/2`, as `int`s -/
+def rowSpec (i : Nat) : Array Int := ((List.range (i / 2 + 1)).map (fun j => ((Nat.choose i j : Nat) : Int))).toArray
 
 /-- the first `n` rows -/
 def rowsSpec (n : Nat) : Array (Array Int) := ((List.range n).map rowSpec).toArray
 
-theorem rowSpec_get {i j : Nat} (h : j ≤ i / 2) : (rowSpec i)[j]? = some (pascalEntry i j) := by
+/-- every entry of row `i` fits an `int` -/
+def RowFits (i : Nat) : Prop := ∀ j, j ≤ i / 2 → Nat.choose i j < 9223372036854775808
+
+theorem rowSpec_get {i j : Nat} (h : j ≤ i / 2) : (rowSpec i)[j]? = some ((Nat.choose i j : Nat) : Int) := by
   unfold rowSpec
   rw [List.getElem?_toArray, List.getElem?_map, List.getElem?_range (by omega)]
   rfl
@@ -656,103 +657,205 @@ theorem rowsSpec_get {n i : Nat} (h : i < n) : (rowsSpec n)[i]? = some (rowSpec 
   rw [List.getElem?_toArray, List.getElem?_map, List.getElem?_range h]
   rfl
 
-theorem wrapInt_add (a b : Int) : wrapInt (wrapInt a + wrapInt b) = wrapInt (a + b) := by
-  unfold wrapInt
-  rw [Int.add_bmod_bmod, Int.bmod_add_bmod]
+/-- the two summands of entry `(i+1, j'+1)` as the code picks them add up to `C(i+1, j'+1)` -/
+theorem pascal_sum (i j' : Nat) :
+    Nat.choose i j' + (if 2 * (j' + 1) ≠ i + 1 then Nat.choose i (j' + 1) else Nat.choose i j') =
+      Nat.choose (i + 1) (j' + 1) := by
+  rw [Nat.choose_succ_succ']
+  split
+  · rfl
+  · next h =>
+    have hi : i = 2 * j' + 1 := by omega
+    subst hi
+    rw [Nat.choose_symm_half]
 
-theorem wrapInt_two_mul (a : Int) : wrapInt (2 * wrapInt a) = wrapInt (2 * a) := by
-  unfold wrapInt
-  rw [Int.mul_bmod_bmod]
-
-theorem pascalEntry_succ (i j : Nat) :
-    pascalEntry (i + 1) (j + 1) = wrapInt (pascalEntry i j + pascalEntry i (j + 1)) := by
-  unfold pascalEntry
-  rw [wrapInt_add, Nat.choose_succ_succ']
-  push_cast
-  rfl
-
-theorem pascalEntry_middle (j : Nat) :
-    pascalEntry (2 * j + 1 + 1) (j + 1) = wrapInt (2 * pascalEntry (2 * j + 1) j) := by
-  unfold pascalEntry
-  rw [wrapInt_two_mul, Nat.choose_succ_succ', Nat.choose_symm_half]
-  push_cast
-  congr 1
-  ring
-
-theorem coeffsRowLoop_spec (rows : Array (Array Int)) (i : Nat) (hprev : prevRow rows (i + 1) = some (rowSpec i)) :
+theorem coeffsRowLoop_spec (rows : Array (Array Int)) (i : Nat) (hprev : prevRow rows (i + 1) = some (rowSpec i))
+    (hfit : RowFits i) :
     ∀ s j, 1 ≤ j → j + s = (i + 1) / 2 + 1 →
-      coeffsRowLoop rows (i + 1) s j ((List.range j).map (pascalEntry (i + 1))).toArray = .ok (rowSpec (i + 1)) := by
+      ((∀ j', j ≤ j' → j' ≤ (i + 1) / 2 → Nat.choose (i + 1) j' < 9223372036854775808) →
+        coeffsRowLoop rows (i + 1) s j ((List.range j).map (fun j => ((Nat.choose (i + 1) j : Nat) : Int))).toArray
+          = .ok (rowSpec (i + 1))) ∧
+      ((∃ j', j ≤ j' ∧ j' ≤ (i + 1) / 2 ∧ 9223372036854775808 ≤ Nat.choose (i + 1) j') →
+        coeffsRowLoop rows (i + 1) s j ((List.range j).map (fun j => ((Nat.choose (i + 1) j : Nat) : Int))).toArray
+          = .panic) := by
   intro s
   induction s with
   | zero =>
     intro j hj hs
+    refine ⟨fun _ => ?_, fun ⟨j', h1, h2, _⟩ => by omega⟩
     unfold coeffsRowLoop rowSpec
     rw [show (i + 1) / 2 + 1 = j by omega]
   | succ s ih =>
     intro j hj hs
-    unfold coeffsRowLoop
-    rw [hprev]
-    simp only
     obtain ⟨j', rfl⟩ : ∃ j', j = j' + 1 := ⟨j - 1, by omega⟩
-    simp only [Nat.add_sub_cancel]
-    have hnext : ∀ x, x = pascalEntry (i + 1) (j' + 1) →
-        ((List.range (j' + 1)).map (pascalEntry (i + 1))).toArray.push x =
-          ((List.range (j' + 1 + 1)).map (pascalEntry (i + 1))).toArray := by
-      intro x hx
-      rw [List.push_toArray, List.range_succ (n := j' + 1), List.map_append, hx]
-      rfl
-    split
-    · next h2 =>
-      have hi : i = 2 * j' + 1 := by omega
+    -- one iteration, in general
+    have hstep : ∀ tmp, coeffsRowLoop rows (i + 1) (s + 1) (j' + 1) tmp =
+        if Nat.choose (i + 1) (j' + 1) < 9223372036854775808 then
+          coeffsRowLoop rows (i + 1) s (j' + 1 + 1) (tmp.push ((Nat.choose (i + 1) (j' + 1) : Nat) : Int))
+        else .panic := by
+      intro tmp
+      rw [coeffsRowLoop, hprev]
+      simp only [Nat.add_sub_cancel]
       rw [rowSpec_get (by omega)]
       simp only
-      rw [hnext _ (by subst hi; exact (pascalEntry_middle j').symm)]
-      exact ih (j' + 1 + 1) (by omega) (by omega)
-    · next h2 =>
-      rw [rowSpec_get (by omega), rowSpec_get (by omega)]
+      have hb : (if 2 * (j' + 1) ≠ i + 1 then (rowSpec i)[j' + 1]? else some ((Nat.choose i j' : Nat) : Int)) =
+          some (((if 2 * (j' + 1) ≠ i + 1 then Nat.choose i (j' + 1) else Nat.choose i j' : Nat)) : Int) := by
+        split
+        · rw [rowSpec_get (by omega)]
+        · rfl
+      rw [hb]
       simp only
-      rw [hnext _ (pascalEntry_succ i j').symm]
-      exact ih (j' + 1 + 1) (by omega) (by omega)
+      have ha1 := hfit j' (by omega)
+      have ha2 : (if 2 * (j' + 1) ≠ i + 1 then Nat.choose i (j' + 1) else Nat.choose i j') < 9223372036854775808 := by
+        split
+        · exact hfit (j' + 1) (by omega)
+        · exact ha1
+      rw [addHasOverflowed_nat _ _ ha1 ha2, pascal_sum]
+      split
+      · simp
+      · simp
+    have hnext : ((List.range (j' + 1)).map (fun j => ((Nat.choose (i + 1) j : Nat) : Int))).toArray.push
+          ((Nat.choose (i + 1) (j' + 1) : Nat) : Int) =
+        ((List.range (j' + 1 + 1)).map (fun j => ((Nat.choose (i + 1) j : Nat) : Int))).toArray := by
+      rw [List.push_toArray, List.range_succ (n := j' + 1), List.map_append]
+      rfl
+    obtain ⟨ihA, ihB⟩ := ih (j' + 1 + 1) (by omega) (by omega)
+    rw [hstep]
+    constructor
+    · intro hall
+      rw [if_pos (hall (j' + 1) (le_refl _) (by omega)), hnext]
+      exact ihA (fun j'' h1 h2 => hall j'' (by omega) h2)
+    · intro ⟨w, h1, h2, h3⟩
+      split
+      · next hlt =>
+        rw [hnext]
+        have : w ≠ j' + 1 := by intro h; subst h; omega
+        exact ihB ⟨w, by omega, h2, h3⟩
+      · rfl
 
-theorem coeffsRow_spec (i : Nat) : coeffsRowLoop (rowsSpec i) i (i / 2) 1 #[1] = .ok (rowSpec i) := by
+theorem rowFits_zero : RowFits 0 := by
+  intro j hj
+  have : j = 0 := by omega
+  subst this
+  simp
+
+/-- row `i` computed from the exact rows `0..i-1`: exact if it fits, panic otherwise -/
+theorem coeffsRow_spec (i : Nat) (hprev : ∀ i', i' < i → RowFits i') :
+    (RowFits i → coeffsRowLoop (rowsSpec i) i (i / 2) 1 #[1] = .ok (rowSpec i)) ∧
+    (¬ RowFits i → coeffsRowLoop (rowsSpec i) i (i / 2) 1 #[1] = .panic) := by
   cases i with
-  | zero => decide
+  | zero => exact ⟨fun _ => by decide, fun h => absurd rowFits_zero h⟩
   | succ i =>
-    have hprev : prevRow (rowsSpec (i + 1)) (i + 1) = some (rowSpec i) := by
+    have hp : prevRow (rowsSpec (i + 1)) (i + 1) = some (rowSpec i) := by
       unfold prevRow
       rw [if_neg (by omega), Nat.add_sub_cancel, rowsSpec_get (by omega)]
-    have := coeffsRowLoop_spec (rowsSpec (i + 1)) i hprev ((i + 1) / 2) 1 (le_refl _) (by omega)
-    have h1 : ((List.range 1).map (pascalEntry (i + 1))).toArray = #[1] := by
-      simp [pascalEntry, wrapInt]
-      decide
-    rw [h1] at this
-    exact this
+    obtain ⟨hA, hB⟩ := coeffsRowLoop_spec (rowsSpec (i + 1)) i hp (hprev i (by omega)) ((i + 1) / 2) 1 (le_refl _) (by omega)
+    have h1 : ((List.range 1).map (fun j => ((Nat.choose (i + 1) j : Nat) : Int))).toArray = #[1] := by
+      simp
+    rw [h1] at hA hB
+    constructor
+    · intro hf
+      exact hA (fun j' _ h2 => hf j' h2)
+    · intro hf
+      apply hB
+      unfold RowFits at hf
+      simp only [not_forall, not_lt, exists_prop] at hf
+      obtain ⟨w, hw1, hw2⟩ := hf
+      have : w ≠ 0 := by intro h; subst h; simp at hw2
+      exact ⟨w, by omega, hw1, hw2⟩
 
-theorem coeffsLoop_spec : ∀ s i, coeffsLoop s i (rowsSpec i) = .ok (rowsSpec (i + s)) := by
+theorem rowsSpec_push (i : Nat) : (rowsSpec i).push (rowSpec i) = rowsSpec (i + 1) := by
+  unfold rowsSpec
+  rw [List.push_toArray, List.range_succ, List.map_append]
+  rfl
+
+theorem coeffsLoop_spec : ∀ s i, (∀ i', i' < i → RowFits i') →
+    ((∀ i', i ≤ i' → i' < i + s → RowFits i') → coeffsLoop s i (rowsSpec i) = .ok (rowsSpec (i + s))) ∧
+    ((∃ i', i ≤ i' ∧ i' < i + s ∧ ¬ RowFits i') → coeffsLoop s i (rowsSpec i) = .panic) := by
   intro s
   induction s with
-  | zero => intro i; rfl
+  | zero => intro i _; exact ⟨fun _ => rfl, fun ⟨i', h1, h2, _⟩ => by omega⟩
   | succ s ih =>
-    intro i
-    unfold coeffsLoop
-    rw [coeffsRow_spec i]
-    simp only
-    have : (rowsSpec i).push (rowSpec i) = rowsSpec (i + 1) := by
-      unfold rowsSpec
-      rw [List.push_toArray, List.range_succ, List.map_append]
-      rfl
-    rw [this, ih (i + 1)]
-    congr 2; omega
+    intro i hprev
+    obtain ⟨rA, rB⟩ := coeffsRow_spec i hprev
+    constructor
+    · intro hall
+      have hfi := hall i (le_refl _) (by omega)
+      unfold coeffsLoop
+      rw [rA hfi]
+      simp only
+      rw [rowsSpec_push]
+      have := (ih (i + 1) (fun i' h => by
+        rcases Nat.lt_or_ge i' i with h' | h'
+        · exact hprev i' h'
+        · have : i' = i := by omega
+          subst this; exact hfi)).1 (fun i' h1 h2 => hall i' (by omega) (by omega))
+      rw [this]
+      congr 2; omega
+    · intro ⟨w, h1, h2, h3⟩
+      unfold coeffsLoop
+      by_cases hfi : RowFits i
+      · rw [rA hfi]
+        simp only
+        rw [rowsSpec_push]
+        have : w ≠ i := by intro h; subst h; exact h3 hfi
+        exact (ih (i + 1) (fun i' h => by
+          rcases Nat.lt_or_ge i' i with h' | h'
+          · exact hprev i' h'
+          · have : i' = i := by omega
+            subst this; exact hfi)).2 ⟨w, by omega, by omega, h3⟩
+      · rw [rB hfi]
 
-theorem coeffs_spec (n : Nat) : coeffs (n : Int) = .ok (rowsSpec (n + 1)) := by
+theorem coeffs_unfold (n : Nat) : coeffs (n : Int) = coeffsLoop (n + 1) 0 (rowsSpec 0) := by
   unfold coeffs
   rw [if_neg (by omega)]
   have : ((n : Int) + 1).toNat = n + 1 := by omega
   rw [this]
-  have h0 : (#[] : Array (Array Int)) = rowsSpec 0 := rfl
-  rw [h0, coeffsLoop_spec (n + 1) 0, Nat.zero_add]
+  rfl
+
+/-! threshold: row 66 fits, row 67 does not -/
 
 theorem choose_66_33 : chooseMul 33 33 < 9223372036854775808 := by decide
+theorem choose_67_33 : 9223372036854775808 ≤ chooseMul 34 33 := by decide
+
+theorem rowFits_iff (i : Nat) : RowFits i ↔ i ≤ 66 := by
+  constructor
+  · intro h
+    by_contra hcon
+    have h1 := h (i / 2) (le_refl _)
+    have h2 : Nat.choose 67 33 ≤ Nat.choose i 33 := Nat.choose_le_choose 33 (by omega)
+    have h3 : Nat.choose i 33 ≤ Nat.choose i (i / 2) := Nat.choose_le_middle 33 i
+    have h4 : 9223372036854775808 ≤ Nat.choose 67 33 := by
+      have := choose_67_33
+      rwa [chooseMul_eq] at this
+    omega
+  · intro h j _
+    have h1 : Nat.choose i j ≤ Nat.choose 66 j := Nat.choose_le_choose j h
+    have h2 : Nat.choose 66 j ≤ Nat.choose 66 33 := Nat.choose_le_middle j 66
+    have h3 : Nat.choose 66 33 < 9223372036854775808 := by
+      have := choose_66_33
+      rwa [chooseMul_eq] at this
+    omega
+
+/-! ## `Unrank` outside the property's domain: `k = 0`, negative rank -/
+
+theorem unrank_k_zero (fuel : Nat) (r : Int) : unrank fuel r 0 = .ok [] := by
+  simp [unrank, unrankLoop]
+
+theorem unrankLoop_neg (f : Nat) (m : Int) (hm : m < 0) (hm' : -9223372036854775808 ≤ m) :
+    ∀ cnt acc, unrankLoop (f + 1) cnt m acc = .ok (toInts (List.range cnt) ++ acc) := by
+  intro cnt
+  induction cnt with
+  | zero => intro acc; simp [unrankLoop]
+  | succ i ih =>
+    intro acc
+    unfold unrankLoop unrankInner
+    rw [if_neg (by omega)]
+    simp only
+    have h0 : wrapInt ((0 : Nat) : Int) = 0 := by decide
+    rw [h0, Int.sub_zero, wrapInt_eq hm' (by omega), ih]
+    rw [List.range_succ, toInts_append]
+    simp
 
 
 end Model
